@@ -43,12 +43,13 @@ func genCase(t *rapid.T) Case {
 	switch c.Unit {
 	case "ss":
 		unitMs = 1000
-		c.SizeMs = rapid.SampledFrom([]int64{1000, 2000, 5000, 60000, 90000}).Draw(t, "size")
+		c.SizeMs = rapid.SampledFrom([]int64{1000, 2000, 5000, 60000, 90000, 7000, 13000}).Draw(t, "size")
 	case "mi":
 		unitMs = 60000
 		c.SizeMs = rapid.SampledFrom([]int64{60000, 120000, 300000, 3600000}).Draw(t, "size")
 	default:
-		c.SizeMs = rapid.SampledFrom([]int64{100, 250, 1000, 2000, 5000, 60000, 90000}).Draw(t, "size")
+		// 7 s, 700 ms, 137 ms, 4096 ms, 13 s do not divide the distance between Go's zero time and the Unix epoch
+		c.SizeMs = rapid.SampledFrom([]int64{100, 250, 1000, 2000, 5000, 60000, 90000, 7000, 700, 137, 4096, 13000}).Draw(t, "size")
 	}
 	c.OOOMs = rapid.SampledFrom([]int64{0, 0, 300, 1000, 5000, 2 * c.SizeMs}).Draw(t, "ooo")
 	c.OOOMs = c.OOOMs / unitMs * unitMs
@@ -318,7 +319,7 @@ func trim(c Case) any { return c }
 
 var spec = pbt.Spec[Case]{
 	ID:          "C01",
-	Rule:        "generated: event-time tumbling windows (size 100ms..90s, MAXOUTOFORDERNESS 0..2*size, 0-4 groups, TIMEUNIT ms/ss, ts as int/int64/float64), 1-40 events from a model clock (duplicate ts, boundary and boundary-1 ts, jumps up to 20 windows) pulled back by jitter in [0,2*OOO], producer pauses, final flush row; 5% long bursts (120-600 strictly increasing rows fed back to back, most opening a new window, then silence); plus a share of processing-time cases run in real time. oracle: arrival/watermark model + per-row invariants (alignment, window_id, ids in own group and interval, count/sum over exactly those ids, no id twice, no interval twice, every not-late-on-arrival id exactly once in its interval, no early firing). non-trivial = >=2 intervals delivered and at least one of {late row, out-of-order row, boundary ts, duplicate ts, on-time row before the first window, long burst}; distinct by case hash",
+	Rule:        "generated: event-time tumbling windows (size 100ms..90s incl. sizes such as 7s, 700ms, 137ms that are aligned to the Unix epoch only by integer arithmetic, MAXOUTOFORDERNESS 0..2*size, 0-4 groups, TIMEUNIT ms/ss, ts as int/int64/float64), 1-40 events from a model clock (duplicate ts, boundary and boundary-1 ts, jumps up to 20 windows) pulled back by jitter in [0,2*OOO], producer pauses, final flush row; 5% long bursts (120-600 strictly increasing rows fed back to back, most opening a new window, then silence); plus a share of processing-time cases run in real time. oracle: arrival/watermark model + per-row invariants (alignment, window_id, ids in own group and interval, count/sum over exactly those ids, no id twice, no interval twice, every not-late-on-arrival id exactly once in its interval, no early firing). non-trivial = >=2 intervals delivered and at least one of {late row, out-of-order row, boundary ts, duplicate ts, on-time row before the first window, long burst}; distinct by case hash",
 	Assumptions: []string{"input never dropped: WithOverflowStrategy(block,0)", "rows late on arrival may be counted or not (property leaves it open)", "a missing delivery after a 4 s wait on a ~150 µs path is a loss, not slowness", "processing-time cases use range oracles on wall-clock brackets"},
 	Gen:         genCase,
 	Run:         runCase,
